@@ -313,3 +313,35 @@ func H_C01_bigfile() {
 		}
 	}
 }
+
+// H_C01_order: the entries of a test need not sit in call order in the file (an entry deleted by
+// hand and recorded again lands at the end): with [T - 2] stored before [T - 1], and another
+// test's entry in between, both calls replay silently and nothing is written.
+func H_C01_order() {
+	vxrt.CI(false)
+	vxrt.YAMLAssume(true)
+	dir := vxrt.Dir()
+	path := dir + "/f.snap"
+	var content string
+	switch vxrt.Choice("order", 3) {
+	case 0:
+		content = vxFrame("TestT - 2", `"two"`) + vxFrame("TestU - 1", `"u"`) + vxFrame("TestT - 1", `"one"`)
+	case 1:
+		content = vxFrame("TestT - 3", `"three"`) + vxFrame("TestT - 2", `"two"`) + vxFrame("TestT - 1", `"one"`)
+	default:
+		content = vxFrame("TestT - 1", `"one"`) + vxFrame("TestT - 3", `"three"`) + vxFrame("TestU - 1", `"u"`) + vxFrame("TestT - 2", `"two"`)
+	}
+	vxWriteFile(path, content)
+	c := WithConfig(Dir(dir), Filename("f"))
+	api := vxrt.Choice("api", 3)
+	for round := 0; round < 2; round++ {
+		t := vxNewT("TestT")
+		stamp := vxrt.FSStamp()
+		for _, v := range []string{`"one"`, `"two"`} {
+			vxCallAPI(c, api, t, v)
+		}
+		t.end()
+		vxrt.Assert(len(t.errors) == 0 && len(t.logs) == 0, "C01:replay-no-error")
+		vxrt.Assert(vxrt.FSStamp() == stamp && vxReadFile(path) == content, "C01:replay-no-write")
+	}
+}
